@@ -229,6 +229,18 @@ def _token(e, tok, owner, whole, allow_prefix):
 
 def _resolve(e, owner, u):
     """('ok', factor, how) | ('atomic',) | ('unresolved', token) | ('nofit',) | ('ambiguous', readings)."""
+    if u.startswith("sq.") and len(u) > 3:
+        # "square X": the square of the unit X of another class (signature doubled; a steradian is a radian squared)
+        inner = u[3:]
+        fits = []
+        for d in e.classes:
+            if d is owner or inner not in d._units:
+                continue
+            dbl = [2 * x for x in e.sig[d]]
+            if dbl == e.sig[owner] or (e.sig[d] == [1] + [0] * 8 and e.sig[owner] == [0, 1] + [0] * 7):
+                fits.append((d._units[inner] ** 2, "%s(%s) squared" % (d.__name__, inner)))
+        if len(fits) == 1:
+            return ('ok', fits[0][0], fits[0][1])
     parts = u.split('/')
     toks = []
     for k, g in enumerate(parts):
